@@ -1,4 +1,4 @@
-import Sop.Lemmas.Recovery
+import Sop.Lemmas.RecoveryWitness
 /-!
 # C08 — a crash during commit leaves all-or-nothing, with earlier commits intact
 
@@ -16,14 +16,25 @@ concrete witness that the harness replays on the real code (directed programs 0,
 * `C08_counterexample_root`  — crash after the first root of an empty store was registered: recovery deletes the
   root blob and leaves the handle (`rollbackNewRootNodes` looks at the recovering transaction's `committedState`).
 
-What does hold (proved for every state / log / handle, not for samples):
+A fourth mechanism concerns later WRITERS, not readers (`C08_counterexample_blocked`, C08-F4): recovery's
+`rollbackRemovedNodes` zeroes the timestamp of a removed node's handle that has both physical ids in use; no later
+transaction can ever update that node (`stuck_never_reservable`, `blocked_node_after_recovery`, `C08_window_F4_blocks`).
+
+What does hold (proved for every state / write set / crash point, not for samples):
+* `C08_atomic_outside_windows` — for every start state, write set (`WF`) and crash point OUTSIDE the three finding
+  windows (`crashWindow`, a decidable predicate on the calls made before the crash): after priority rollback +
+  expired-log rollback every node loadable before reads as before with the old counts, or — only after cleanup's
+  first log line, hence after the flip — every updated node shows the staged blob at the next version, every
+  removed node is gone, every untouched node reads as before, the new roots / added nodes are visible, with the new
+  counts; a registered new root is
+  loadable; both log files are gone. `C08_views_and_counts_outside_F1_F2`, `C08_roots_outside_F3` say which window
+  breaks which half; `C08_window_F1_fails`, `C08_window_F2_fails`, `C08_window_F3_fails` show the statement fails
+  inside each window; `C08_windows_exact_on_witness` that on the witness the windows are exactly the bad points;
 * `C08_recovery_removes_log`, `C08_recovery_removes_plog_partial` — recovery always removes the dead transaction's
   log, and its priority log when the version check passes;
 * `C08_cleanup_only_finishes_partial` — once cleanup has logged `deleteObsoleteEntries` the recovery does exactly
-  the rest of the cleanup (delete the obsolete blobs and the removed nodes' handles, remove the log): the committed
-  state is kept;
-* `reserve_keeps_view`, `activate_shows_staged`, `restore_image_keeps_view` — the handle-level facts the protocol
-  rests on: a reservation and a restored pre-flip image show readers the old node, the flip shows the staged one.
+  the rest of the cleanup;
+* `reserve_keeps_view`, `activate_shows_staged`, `restore_image_keeps_view` — handle-level facts.
 -/
 namespace Sop.C08
 open Sop.Commit Sop.Recovery
@@ -146,49 +157,16 @@ example : plogFits (crashAt s1 1 f1 w1 14) = true ∧ (crashAt s1 1 f1 w1 14).pl
 
 /-! ### The cleanup window: once `deleteObsoleteEntries` is logged, recovery only finishes the cleanup -/
 
-/-- log lines cleanup itself appends: steps 12 and 13, no payload -/
-def cleanupLine (e : Entry) : Bool :=
-  (e.step == .deleteObsoleteEntries || e.step == .deleteTrackedItemsValues) && e.p == .none
-
-theorem walk_skips_cleanup_lines (last : Nat) (post : List Entry) (hpost : ∀ e ∈ post, cleanupLine e = true)
-    (rest : List Entry) (x : DState × List Ev) : walk last (post ++ rest) x = walk last rest x := by
-  induction post with
-  | nil => rfl
-  | cons e t ih =>
-    have he := hpost e (by simp)
-    have ht : ∀ e ∈ t, cleanupLine e = true := fun e' h' => hpost e' (by simp [h'])
-    obtain ⟨st, p⟩ := e
-    simp [cleanupLine] at he
-    obtain ⟨hst, hp⟩ := he
-    subst hp
-    rcases hst with h | h <;> subst h <;> simp [walk, walkEntry, ih ht]
-
 /-- If the log reads `… finalizeCommit(dead, unused, vals); deleteObsoleteEntries [; deleteTrackedItemsValues]`
 the expired-log rollback deletes the obsolete value blobs (only at `last = 13`), the unused blobs and the removed
-handles, removes the log, and touches nothing else. -/
+handles, removes the log, and touches nothing else. (`cleanupLine`, `expired_finishes_cleanup`: `Sop.Lemmas.RecoveryCleanup`.) -/
 theorem C08_cleanup_only_finishes_partial (d : DState) (pre post : List Entry) (dead unused vals : List UUID) (l : Entry)
     (hlog : d.log = pre ++ ⟨.finalizeCommit, .obsolete dead unused vals⟩ :: post)
     (hpost : ∀ e ∈ post, cleanupLine e = true) (hne : post.getLast? = some l) (htl : d.s.tlog d.tid = true) :
     (expiredRollback (d, [])).1 =
       (removeLog (deleteObsolete dead unused
         (if l.step.ord == Step.deleteTrackedItemsValues.ord && !vals.isEmpty then blobRemove vals (d, []) else (d, [])))).1 := by
-  have hl : d.log.getLast? = some l := by
-    rw [hlog]
-    cases post with
-    | nil => simp at hne
-    | cons a t => simp [List.getLast?_append, List.getLast?_cons_cons] at hne ⊢; simpa [List.getLast?_cons] using hne
-  have hge : l.step.ord ≥ Step.deleteObsoleteEntries.ord := by
-    have := hpost l (List.mem_of_getLast? hne)
-    obtain ⟨st, p⟩ := l
-    simp [cleanupLine] at this
-    rcases this.1 with h | h <;> subst h <;> simp [Step.ord]
-  unfold expiredRollback
-  simp only [htl, hl]
-  simp only [Bool.not_true, Bool.false_eq_true, ↓reduceIte]
-  rw [hlog]
-  simp only [List.reverse_append, List.reverse_cons, List.append_assoc]
-  rw [walk_skips_cleanup_lines _ post.reverse (fun e he => hpost e (by simpa using he))]
-  simp [walk, walkEntry, hge]
+  rw [expired_finishes_cleanup (d, []) pre post dead unused vals l hlog hpost hne htl]
 
 /-- non-vacuity: crash point 18 of witness 1 (right after `tlog.Add 12`) has that shape -/
 example : (crashAt s1 1 f1 w1 18).log = ((crashAt s1 1 f1 w1 18).log.take 9) ++ ⟨.finalizeCommit, .obsolete [] [1] []⟩ :: [⟨.deleteObsoleteEntries, .none⟩]
@@ -246,5 +224,209 @@ theorem activate_shows_staged (h : Handle) :
 theorem restore_image_keeps_view (s : State) (h : Handle) :
     (s.setReg h).reg h.lid = some h ∧ ((s.setReg (activate h)).setReg h).reg h.lid = some h := by
   simp [State.setReg, activate, Handle.flip]
+
+
+/-! ## The general theorem: all-or-nothing outside the three windows
+
+`Sop.Lemmas.RecoveryOps … RecoveryAtomicAll` prove, over the crash/recovery model, for EVERY start state, write set
+(under `WF`) and crash point: after the recovery the code performs (priority rollback, then expired-log rollback)
+either every node loadable before reads as before and the counts are the old ones, or — only when the crash fell
+after cleanup's first log line, hence after the flip — every updated node shows its staged blob at the next
+version, every removed node is gone, every untouched node reads as before and the counts are the new ones; a
+registered new root is loadable; both log files are gone — EXCEPT inside the three windows of the open findings,
+given as decidable predicates on the calls made before the crash (`inF1`, `inF2`, `inF3`). Inside each window the
+statement fails (witnesses below). -/
+
+/-- the crash point `m` (number of durable calls of `Commit` made before the process died) lies in one of the three
+finding windows — a decidable predicate on the crash point -/
+def crashWindow (s : State) (fresh : List (UUID × UUID)) (w : WS) (m : Nat) : Bool :=
+  inWindow w ((commitOps s fresh w).take m)
+
+/-- when every updated node could be reserved and every removed node was registered, `NewOutcome` speaks about
+every node of the write set -/
+theorem C08_new_covers_write_set {s0 : State} {w : WS} {fresh : List (UUID × UUID)} (wf : WF s0 w fresh) {a : State}
+    (hN : NewOutcome s0 fresh w a)
+    (hlen : (reservedOf s0 fresh w).length = w.updated.length)
+    (hreg : ∀ i ∈ w.removed.map (·.1), (s0.reg i).isSome = true) :
+    (∀ i ∈ w.updated.map (·.1), ∃ h ∈ reservedOf s0 fresh w, h.lid = i ∧ a.view i = some (h.inactive, h.version + 1))
+    ∧ ∀ i ∈ w.removed.map (·.1), a.view i = none := by
+  obtain ⟨_, _, _, r4⟩ := reservedOf_facts wf.pre
+  have heq : (reservedOf s0 fresh w).map (·.lid) = w.updated.map (·.1) :=
+    r4.eq_of_length (by simp [hlen])
+  refine ⟨?_, ?_⟩
+  · intro i hi
+    rw [← heq] at hi
+    obtain ⟨h, hh, rfl⟩ := List.mem_map.mp hi
+    exact ⟨h, hh, rfl, hN.upd h hh⟩
+  · intro i hi
+    have hs := hreg i hi
+    cases hr : s0.reg i with
+    | none => rw [hr] at hs; cases hs
+    | some h =>
+      obtain ⟨x, hx, rfl⟩ := List.mem_map.mp hi
+      have hm : ({ h with deleted := true, wip := s0.now } : Handle) ∈ markedOf s0 w := by
+        unfold markedOf
+        exact List.mem_map_of_mem (List.mem_filterMap.mpr ⟨x, hx, hr⟩)
+      have := hN.rem _ hm
+      have hl : h.lid = x.1 := wf.pre.regwf _ _ hr
+      simpa [hl] using this
+
+/-! ### Witnesses (`wU`, `wf_upd`, `wf_root`: `Sop.Lemmas.RecoveryWitness`): inside each window the statement fails -/
+
+
+/-- **C08 outside the three finding windows** (see `Sop.Recovery.atomic_outside_windows`). -/
+theorem C08_atomic_outside_windows {s0 : State} {w : WS} {fresh : List (UUID × UUID)} (wf : WF s0 w fresh) (tid : Tid)
+    (m : Nat) (hw : crashWindow s0 fresh w m = false) :
+    (OldOutcome s0 (recover (crashAt s0 tid fresh w m)).1.s ∨
+      (hasLog .deleteObsoleteEntries ((commitOps s0 fresh w).take m) = true ∧
+        NewOutcome s0 fresh w (recover (crashAt s0 tid fresh w m)).1.s))
+    ∧ RootsOK w (recover (crashAt s0 tid fresh w m)).1.s
+    ∧ (recover (crashAt s0 tid fresh w m)).1.plg = none
+    ∧ (recover (crashAt s0 tid fresh w m)).1.s.tlog tid = false :=
+  atomic_outside_windows wf tid m hw
+
+/-- the node/count half needs only the flip window and the count window to be excluded -/
+theorem C08_views_and_counts_outside_F1_F2 {s0 : State} {w : WS} {fresh : List (UUID × UUID)} (wf : WF s0 w fresh)
+    (tid : Tid) (m : Nat)
+    (h1 : inF1 ((commitOps s0 fresh w).take m) = false) (h2 : inF2 ((commitOps s0 fresh w).take m) = false) :
+    (OldOutcome s0 (recover (crashAt s0 tid fresh w m)).1.s ∨
+      (hasLog .deleteObsoleteEntries ((commitOps s0 fresh w).take m) = true ∧
+        NewOutcome s0 fresh w (recover (crashAt s0 tid fresh w m)).1.s))
+    ∧ (recover (crashAt s0 tid fresh w m)).1.plg = none
+    ∧ (recover (crashAt s0 tid fresh w m)).1.s.tlog tid = false :=
+  atomic_outside_F1_F2 wf tid m h1 h2
+
+/-- the new-root half needs only the root window to be excluded -/
+theorem C08_roots_outside_F3 {s0 : State} {w : WS} {fresh : List (UUID × UUID)} (wf : WF s0 w fresh) (tid : Tid) (m : Nat)
+    (h3 : inF3 w ((commitOps s0 fresh w).take m) = false) : RootsOK w (recover (crashAt s0 tid fresh w m)).1.s :=
+  roots_outside_F3 wf tid m h3
+
+/-- non-vacuity: the premises hold of the witnesses, and crash points outside the windows exist before the flip,
+between the flip and the priority-log removal, and in cleanup -/
+example : WF Witness.s0 (wU 1) [(1, 9)] ∧ crashWindow Witness.s0 [(1, 9)] (wU 1) 7 = false
+    ∧ crashWindow Witness.s0 [(1, 9)] (wU 0) 14 = false ∧ crashWindow Witness.s0 [(1, 9)] (wU 1) 18 = false :=
+  ⟨wf_upd 1, by decide +kernel, by decide +kernel, by decide +kernel⟩
+
+/-- **inside the flip window (C08-F1, alone) the statement fails**: `WF` holds, the crash point (after `plog.Remove`,
+before `tlog.Add 12`) is in `inF1` only, and the recovered state is neither old nor new — node 1 cannot be loaded -/
+theorem C08_window_F1_fails :
+    WF Witness.s0 (wU 0) [(1, 9)]
+    ∧ inF1 ((commitOps Witness.s0 [(1, 9)] (wU 0)).take 15) = true
+    ∧ inF2 ((commitOps Witness.s0 [(1, 9)] (wU 0)).take 15) = false
+    ∧ inF3 (wU 0) ((commitOps Witness.s0 [(1, 9)] (wU 0)).take 15) = false
+    ∧ ¬ (OldOutcome Witness.s0 (recover (crashAt Witness.s0 1 [(1, 9)] (wU 0) 15)).1.s ∨
+        (hasLog .deleteObsoleteEntries ((commitOps Witness.s0 [(1, 9)] (wU 0)).take 15) = true ∧
+          NewOutcome Witness.s0 [(1, 9)] (wU 0) (recover (crashAt Witness.s0 1 [(1, 9)] (wU 0) 15)).1.s)) := by
+  refine ⟨wf_upd 0, by decide +kernel, by decide +kernel, by decide +kernel, ?_⟩
+  rintro (h | ⟨h, _⟩)
+  · have := h.views 1 (by decide +kernel)
+    revert this; decide +kernel
+  · revert h; decide +kernel
+
+/-- **inside the count window (C08-F2, alone) the statement fails**: right after `sr.Update` the recovered state has
+the old node with the new count -/
+theorem C08_window_F2_fails :
+    WF Witness.s0 (wU 1) [(1, 9)]
+    ∧ inF2 ((commitOps Witness.s0 [(1, 9)] (wU 1)).take 11) = true
+    ∧ inF1 ((commitOps Witness.s0 [(1, 9)] (wU 1)).take 11) = false
+    ∧ inF3 (wU 1) ((commitOps Witness.s0 [(1, 9)] (wU 1)).take 11) = false
+    ∧ ¬ (OldOutcome Witness.s0 (recover (crashAt Witness.s0 1 [(1, 9)] (wU 1) 11)).1.s ∨
+        (hasLog .deleteObsoleteEntries ((commitOps Witness.s0 [(1, 9)] (wU 1)).take 11) = true ∧
+          NewOutcome Witness.s0 [(1, 9)] (wU 1) (recover (crashAt Witness.s0 1 [(1, 9)] (wU 1) 11)).1.s)) := by
+  refine ⟨wf_upd 1, by decide +kernel, by decide +kernel, by decide +kernel, ?_⟩
+  rintro (h | ⟨h, _⟩)
+  · have := congrFun h.cnt 0
+    revert this; decide +kernel
+  · revert h; decide +kernel
+
+/-- **inside the root window (C08-F3, alone) the statement fails**: the new root's handle is registered, its blob is gone -/
+theorem C08_window_F3_fails :
+    WF Witness.sEmpty Witness.wRoot []
+    ∧ inF3 Witness.wRoot ((commitOps Witness.sEmpty [] Witness.wRoot).take 6) = true
+    ∧ inF1 ((commitOps Witness.sEmpty [] Witness.wRoot).take 6) = false
+    ∧ inF2 ((commitOps Witness.sEmpty [] Witness.wRoot).take 6) = false
+    ∧ ¬ RootsOK Witness.wRoot (recover (crashAt Witness.sEmpty 1 [] Witness.wRoot 6)).1.s := by
+  refine ⟨wf_root, by decide +kernel, by decide +kernel, by decide +kernel, ?_⟩
+  intro h
+  have := h 3 (by decide)
+  revert this; decide +kernel
+
+/-- on the witness (node 1 rewritten, count +1) the windows are EXACTLY the crash points where the recovered state
+is neither (old node, old count) nor (new node, new count): all 22 crash points -/
+theorem C08_windows_exact_on_witness :
+    ∀ m ∈ List.range 22,
+      crashWindow Witness.s0 [(1, 9)] (wU 1) m =
+        !(((recover (crashAt Witness.s0 1 [(1, 9)] (wU 1) m)).1.s.view 1 == some (1, 1)
+              && (recover (crashAt Witness.s0 1 [(1, 9)] (wU 1) m)).1.s.cnt 0 == 5)
+          || ((recover (crashAt Witness.s0 1 [(1, 9)] (wU 1) m)).1.s.view 1 == some (9, 2)
+              && (recover (crashAt Witness.s0 1 [(1, 9)] (wU 1) m)).1.s.cnt 0 == 6)) := by
+  decide +kernel
+
+
+/-! ## C08-F4: a removed node left un-reservable for ever
+
+Not a view defect — every reader sees the old state — but the last conjunct of `Statement_C08` (`usable`): recovery's
+`rollbackRemovedNodes` clears the deleted mark and ZEROES `WorkInProgressTimestamp`. On a handle that an earlier commit
+had updated (both physical ids in use, timestamp 1 = "the inactive id may be reused") this removes the only thing that
+lets a later `commitUpdatedNodes` reuse the slot: `AllocateID` returns nil and `IsExpiredInactive()` is false for ever. -/
+
+/-- a `stuck` handle is refused by `commitUpdatedNodes` whatever the clock, the generated id and the version read -/
+theorem stuck_never_reservable (h : Handle) (hs : stuck h = true) (now hour : Int) (f : UUID) (v : Int) :
+    reserveOne now hour f h v = none := by
+  unfold stuck at hs
+  simp only [Bool.and_eq_true, Bool.or_eq_true, decide_eq_true_eq] at hs
+  obtain ⟨hdb, hw⟩ := hs
+  have hexp : h.expiredInactive now hour = false := by
+    unfold Handle.expiredInactive
+    have : ¬ (h.wip > 0) := by omega
+    simp [this]
+  unfold reserveOne
+  rcases hdb with hd | hb
+  · simp [hd, hexp]
+  · by_cases hd : h.deleted = true
+    · simp [hd, hexp]
+    · have hd' : h.deleted = false := by simpa using hd
+      simp only [hd', hexp, Bool.false_and, Bool.not_false, Bool.and_true, Bool.false_or, Bool.false_eq_true, ↓reduceIte]
+      split
+      · rfl
+      · simp [Handle.allocate, hb]
+
+/-- node 1 was updated by an earlier commit: both physical ids in use, B active, version 2, timestamp 1 -/
+def sB : State :=
+  { ((({} : State).setReg ⟨1, 1, 2, true, 2, 1, false⟩).setBlob 2 true) with
+      cnt := fun k => if k = 0 then 5 else 0, storeExists := fun k => k = 0 }
+/-- the transaction removes node 1 -/
+def wB : WS := { stores := [{ store := 0, removed := [(1, 2)], items := 1, delta := -1 }] }
+
+theorem readyB : Ready sB [] wB = true := by decide
+
+/-- C08-F4 window: a removed node's handle has both physical ids in use, `commitAddedNodes` is logged (so the recovery
+undoes the removal marks), cleanup has not logged its first line -/
+def inF4 (s : State) (w : WS) (p : List DOp) : Bool :=
+  w.removed.any (fun x => match s.reg x.1 with
+    | some h => h.bothInUse
+    | none => false)
+  && hasLog .commitAddedNodes p && !hasLog .deleteObsoleteEntries p
+
+/-- crash point 8 (right after `tlog.Add 8`, outside F1–F3): readers see node 1 as before, but its handle has lost its
+timestamp with both ids in use — it was reservable before the commit and is `stuck` after the recovery -/
+theorem blocked_node_after_recovery :
+    let a := (recover (crashAt sB 1 [] wB 8)).1.s
+    crashWindow sB [] wB 8 = false ∧ inF4 sB wB ((commitOps sB [] wB).take 8) = true
+    ∧ a.view 1 = sB.view 1 ∧ a.cnt 0 = sB.cnt 0
+    ∧ a.reg 1 = some ⟨1, 1, 2, true, 2, 0, false⟩ ∧ stuckLids a wB = [1] ∧ stuckLids sB wB = []
+    ∧ usable sB wB = true ∧ usable a wB = false := by decide +kernel
+
+theorem C08_counterexample_blocked : ¬ Statement_C08 := by
+  intro h
+  have := h sB [] wB 8 readyB
+  revert this
+  decide +kernel
+
+/-- on the witness the recovery leaves node 1 `stuck` at exactly the crash points of the F4 window (all 20 crash points) -/
+theorem C08_window_F4_blocks :
+    ∀ m ∈ List.range 20,
+      inF4 sB wB ((commitOps sB [] wB).take m) = !(stuckLids (recover (crashAt sB 1 [] wB m)).1.s wB).isEmpty := by
+  decide +kernel
 
 end Sop.C08
